@@ -12,6 +12,10 @@ import (
 
 const gRequire = "From TarsV Require Import Base.Hex Codec.GenCodec Codec.Corr Gen.Schemas."
 
+// gRequireT adds the evaluators that know the domain of the theorems (Codec/CorrT.v): a model outcome "out of
+// fuel" is inconclusive for struct types outside the class for which fuel sufficiency is proved
+const gRequireT = gRequire + "\nFrom TarsV Require Import Codec.RoundTrip Codec.CorrT."
+
 type gCase struct {
 	Kind   string `json:"kind"` // enc | dec | reuse
 	Struct string `json:"struct"`
